@@ -79,18 +79,20 @@ impl Lit {
         let mut e = inner.to_string();
         let mut const_ok = true; // a `const` item may only contain const-evaluable layers
         for w in &self.wrap {
-            let w = if w % 7 == 6 && !const_ok { 1 } else { *w };
-            if matches!(w % 7, 4 | 5) {
+            let w = if w % 8 == 6 && !const_ok { 1 } else { *w };
+            if matches!(w % 8, 4 | 5 | 7) {
                 const_ok = false;
             }
-            e = match w % 7 {
+            e = match w % 8 {
                 0 => format!("({e})"),
                 1 => format!("{{ {e} }}"),
                 2 => format!("[{e}][0]"),
                 3 => format!("({e},).0"),
                 4 => format!("id({e})"),
                 5 => format!("(|| {e})()"),
-                _ => format!("{{ const C: {ty} = {e}; C }}"),
+                6 => format!("{{ const C: {ty} = {e}; C }}"),
+                // inside another macro's token tree
+                _ => format!("vec![{e}].remove(0)"),
             };
         }
         e
@@ -153,7 +155,7 @@ fn lit_strategy() -> BoxedStrategy<Lit> {
     (
         (bits, base, 0u8..12, proptest::collection::vec(any::<u64>(), 5), 0usize..4),
         (proptest::collection::vec(any::<u16>(), 0..4), any::<u64>(), any::<bool>(), any::<bool>(), 0u8..8, any::<u16>()),
-        (proptest::collection::vec(0u8..7, 0..=4), 0u8..3),
+        (proptest::collection::vec(0u8..8, 0..=4), 0u8..3),
     )
         .prop_map(|((bits, base, vk, raw, lead0), (us, case_bits, sep, is_b, bad, badpos), (wrap, form))| {
             // digit budget: at most 300 digits
